@@ -82,11 +82,12 @@ inductive Kind
   | failure (msg : Bytes)
 deriving Repr, DecidableEq
 
-/-- Filter conditions (`header.Filter`, `url.Filter`, `method.Filter`). -/
+/-- Filter conditions (`header.Filter`, `url.Filter`, `method.Filter`, `querystring.Filter`). -/
 inductive Cond
   | header (name value : Bytes)
   | url (s h p q : Bytes)
   | method (m : Bytes)
+  | qs (k v : Bytes)                            -- `querystring.Filter`
 deriving Repr, DecidableEq
 
 def Side.name : Side → Bytes
@@ -160,6 +161,9 @@ def Cond.holds (side : Side) (m : Msg) : Cond → Bool
   | .url s h p q =>
     !((s ≠ [] && s ≠ m.scheme) || (h ≠ [] && !matchHost m.host h) || (p ≠ [] && p ≠ m.path) || (q ≠ [] && q ≠ m.query))
   | .method want => equalFold m.method want
+  | .qs k v => match formValues m.query k with
+    | none => false
+    | some vs => v = [] || vs.contains v
 
 /-- `pingback.Verifier.ModifyRequest`: the `switch` falls to `default` when no configured part differs
 (host compared with `!=`, not `MatchHost`). -/
@@ -219,13 +223,33 @@ inductive T
   | fail                                        -- a modifier that is no verifier and returns an error
   | group (agg : Bool) (ms : TL)                -- `fifo.Group` (this side's list)
   | filter (c : Cond) (t f : T)                 -- `filter.Filter` (this side's two branch fields)
+  | hide (t : T)                                -- `priority.Group`: runs its children, is no verifier
 inductive TL
   | nil
   | cons (t : T) (l : TL)
 end
 
 mutual
-/-- `ModifyRequest` / `ModifyResponse`: new state and whether an error was returned. -/
+/-- Does the node return an error for this exchange (independent of the verifiers' state). -/
+def T.errors (side : Side) (m : Msg) : T → Bool
+  | .ver _ _ => false
+  | .ping .. => false
+  | .nop => false
+  | .fail => true
+  | .group agg ms => ms.errors side m agg
+  | .filter c t f => if c.holds side m then t.errors side m else f.errors side m
+  | .hide t => t.errors side m
+def TL.errors (side : Side) (m : Msg) (agg : Bool) : TL → Bool
+  | .nil => false
+  | .cons t l => if t.errors side m && !agg then true else (t.errors side m || l.errors side m agg)
+end
+
+mutual
+/-- `ModifyRequest` / `ModifyResponse`: new state and whether an error was returned.
+A `priority.Group` (`hide`) implements neither verify interface, so the verify and reset walks of its
+parent skip it: whatever the verifiers below it record can never be observed through the handlers,
+and the model does not keep it; all that matters is whether the group returns an error, which it
+does iff one of its children does (it stops at the first), whatever the priorities. -/
 def T.modify (side : Side) (m : Msg) : T → T × Bool
   | .ver k errs =>
     if skipsApi (k.apiKey side) && m.api then (.ver k errs, false)
@@ -242,6 +266,7 @@ def T.modify (side : Side) (m : Msg) : T → T × Bool
   | .filter c t f =>
     if c.holds side m then let r := t.modify side m; (.filter c r.1 f, r.2)
     else let r := f.modify side m; (.filter c t r.1, r.2)
+  | .hide t => (.hide t, t.errors side m)
 def TL.modify (side : Side) (m : Msg) (agg : Bool) : TL → TL × Bool
   | .nil => (.nil, false)
   | .cons t l =>
@@ -264,6 +289,7 @@ def T.verify (side : Side) : T → Option Err
     let vf := f.verify side
     let es := (verifyVisits side).foldl (fun acc b => addOpt acc (if b then vt else vf)) []
     if es.isEmpty then none else some (.multi es)
+  | .hide _ => none
 def TL.verify (side : Side) : TL → List Err
   | .nil => []
   | .cons t l => addOpt [] (t.verify side) ++ l.verify side
@@ -281,6 +307,7 @@ def T.reset (side : Side) : T → T
   | .filter c t f =>
     .filter c (if (resetVisits side).contains true then t.reset side else t)
               (if (resetVisits side).contains false then f.reset side else f)
+  | .hide t => .hide t
 def TL.reset (side : Side) : TL → TL
   | .nil => .nil
   | .cons t l => .cons (t.reset side) (l.reset side)
@@ -341,6 +368,7 @@ inductive Cfg
   | leaf (l : Leaf) (sc : Scope)
   | group (agg : Bool) (sc : Scope) (ms : CfgL)
   | filter (c : Cond) (sc : Scope) (t : Cfg) (f : Cfg)
+  | prio (sc : Scope) (ms : CfgL)                -- `priority.Group` (the priorities do not matter, see `T.modify`)
   | absent                                       -- a missing `else` entry
 inductive CfgL
   | nil
@@ -409,6 +437,14 @@ def Cfg.compile (side : Side) : Cfg → Option (Option T)
         | none => none
         | some false => some none
         | some true => some (some (.filter c (tt.getD .nop) (ff.getD .nop)))
+  | .prio sc ms =>
+    match ms.compile side with
+    | none => none
+    | some l =>
+      match scopeSel (true, true) sc side with
+      | none => none
+      | some false => some none
+      | some true => some (some (.hide (.group false l)))
   | .absent => some none
 /-- `fifo.groupFromJSON`: children without a modifier for this side are not added. -/
 def CfgL.compile (side : Side) : CfgL → Option TL
@@ -445,24 +481,12 @@ def T.clear : T → T
   | .fail => .fail
   | .group agg ms => .group agg ms.clear
   | .filter c t f => .filter c t.clear f.clear
+  | .hide t => .hide t
 def TL.clear : TL → TL
   | .nil => .nil
   | .cons t l => .cons t.clear l.clear
 end
 
-mutual
-/-- Does the node return an error for this exchange (independent of the verifiers' state). -/
-def T.errors (side : Side) (m : Msg) : T → Bool
-  | .ver _ _ => false
-  | .ping .. => false
-  | .nop => false
-  | .fail => true
-  | .group agg ms => ms.errors side m agg
-  | .filter c t f => if c.holds side m then t.errors side m else f.errors side m
-def TL.errors (side : Side) (m : Msg) (agg : Bool) : TL → Bool
-  | .nil => false
-  | .cons t l => if t.errors side m && !agg then true else (t.errors side m || l.errors side m agg)
-end
 
 def leafSpec (side : Side) (k : Kind) (ms : List Msg) : List Bytes :=
   (ms.filter (fun m => !m.api)).filterMap (check side k)
@@ -487,6 +511,7 @@ def T.spec (side : Side) : T → List Msg → List Bytes
     let st := t.spec side (ms.filter (fun m => c.holds side m))
     let sf := f.spec side (ms.filter (fun m => !c.holds side m))
     if elseFirst side then sf ++ st else st ++ sf
+  | .hide _, _ => []
 def TL.spec (side : Side) (agg : Bool) : TL → List Msg → List Bytes
   | .nil, _ => []
   | .cons t l, ms => t.spec side ms ++ l.spec side agg (ms.filter (fun m => agg || !t.errors side m))
